@@ -2,6 +2,7 @@ package main
 
 import (
 	"fmt"
+	"math"
 
 	"github.com/skx/evalfilter/v2/object"
 
@@ -211,6 +212,43 @@ func c05(c *ev.Ctx) {
 		a, b := insts[k/len(insts)], insts[k%len(insts)]
 		check(fmt.Sprintf("pair-and/%d", k), "return "+a.expr+" && "+b.expr+";", mapObj, bs(a.truth && b.truth), nil)
 		check(fmt.Sprintf("pair-or/%d", k), "return "+a.expr+" || "+b.expr+";", mapObj, bs(a.truth || b.truth), nil)
+	})
+	// comparison results of every origin, also with hostile numbers (NaN, infinities, -0):
+	// whatever a comparison yields, `!`, `!!`, if, the ternary and a stored copy must agree
+	// about it. No assumption is made about what the comparison itself yields.
+	cmpObj := map[string]interface{}{"Nan": math.NaN(), "Inf": math.Inf(1), "Ninf": math.Inf(-1), "Nzero": math.Copysign(0, -1), "F0": 0.0, "F1": 1.5, "I0": 0, "I5": 5, "In": -2,
+		"S0": "", "Sx": "x", "S5": "5", "Nil": nil, "Bt": true, "A1": []interface{}{1.5, "x"}}
+	operands := []string{"Nan", "Inf", "Ninf", "Nzero", "F0", "F1", "I0", "I5", "In", "S0", "Sx", "S5", "Nil", "Bt", "1", "0.5", `"x"`, "(0 - 1)", "/x/"}
+	cmpOps := []string{"<", "<=", ">", ">=", "==", "!=", "~=", "!~", "in"}
+	nc := len(operands) * len(operands) * len(cmpOps)
+	c.ParFor(nc, func(k int) {
+		a, b, op := operands[k/(len(operands)*len(cmpOps))], operands[(k/len(cmpOps))%len(operands)], cmpOps[k%len(cmpOps)]
+		if op == "in" {
+			b = "[" + b + ", A1]"
+		}
+		id := fmt.Sprintf("cmp-consistency/%d", k)
+		if !c.Want(id) {
+			return
+		}
+		e := "(" + a + " " + op + " " + b + ")"
+		script := "c = " + e + "; n = !" + e + "; m = !c; i = \"F\"; if " + e + " { i = \"T\"; } j = \"F\"; if (!" + e + ") { j = \"T\"; } w = \"F\"; while (!" + e + ") { w = \"T\"; return [c, n, m, i, j, w, !!" + e + ", " + e + " ? \"T\" : \"F\", !" + e + " ? \"T\" : \"F\", type(c)]; } return [c, n, m, i, j, w, !!" + e + ", " + e + " ? \"T\" : \"F\", !" + e + " ? \"T\" : \"F\", type(c)];"
+		for _, noOpt := range []bool{false, true} {
+			evr, err := eng.New(script, eng.Options{NoOptimize: noOpt})
+			if err != nil {
+				continue
+			}
+			o := evr.Exec(cmpObj)
+			if o.Err != nil {
+				c.Count("skipped/comparison not defined for these operands", 1)
+				continue
+			}
+			c.Case(script+fmt.Sprint(noOpt), true)
+			yes := "ARRAY:[true, false, false, T, F, F, true, T, F, boolean]"
+			no := "ARRAY:[false, true, true, F, T, T, false, F, T, boolean]"
+			if d := o.Desc(); d != yes && d != no {
+				c.Violation(id, "comparison result seen differently by different consumers", map[string]interface{}{"summary": fmt.Sprintf("%s (noopt=%v): [value, !(..), !copy, if, if-not, while-not, !!, ternary, ternary-not, type] = %s", e, noOpt, d), "script": script})
+			}
+		}
 	})
 	c.Extra("instances", len(insts)+len(sInsts))
 	c.Extra("exhaustive", true)
